@@ -54,6 +54,12 @@ CLAIMED.update({
          "Trusts: the filter evaluator; lock poisoning cannot occur under the parking_lot seam and is not explored; sequential consistency.", "DESIGN.md 5 C12"),
 })
 
+CLAIMED.update({
+ "C13": ("fmt-sim", "deterministic simulation: seeded formatter/option/writer-expression configurations x 1-8 emitting threads scheduled at the recording sinks' factory and write calls, with aborted formatting (panicking Debug) and failing Tee branches as faults; writer-expression denotation (A9) and per-format record oracle",
+         "Seeded exploration of the real fmt layer (full/compact/pretty/json x target/level/thread/file/line/ansi/timer/span-event options, json flatten/current_span/span_list) over writer expressions of depth <=3 (with_max_level, with_min_level, with_filter, and, or_else) on up to 5 recording sinks; per event and per configured span lifecycle point: the factory is asked with that event's metadata, every denoted sink receives exactly one write carrying one whole newline-terminated record (one line for full/compact/json), no other sink receives bytes, the record carries the level, the event's own fields and the spans in scope in nesting order in the form each formatter documents, and nothing from another record (also after a caught panic inside formatting). Sampling, not proof.",
+         "Trusts: the denotation and the token-based record parser in sim/tsim/src/fmt_sim.rs; the compact formatter is checked for span fields not names (its documented design); JSON lifecycle records' span list is not judged (explicit-parent events).", "DESIGN.md 5 C13"),
+})
+
 NOT_BUILT = {
 }
 
